@@ -18,10 +18,10 @@ pub fn run() -> i32 {
         }
         tokio::time::sleep(Duration::from_millis(2000)).await;
         for (id, n) in &w.nodes {
-            println!("node {id}: leader view {:?} log_last={} exit={:?}", n.leader_rx.borrow().clone(), d_engine_core::RaftLog::last_entry_id(&*n.raft_log), n.raft_exit.lock().unwrap());
+            crate::outln!("node {id}: leader view {:?} log_last={} exit={:?}", n.leader_rx.borrow().clone(), d_engine_core::RaftLog::last_entry_id(&*n.raft_log), n.raft_exit.lock().unwrap());
         }
         let leader = w.nodes.values().find_map(|n| n.leader_rx.borrow().clone()).map(|l| l.leader_id);
-        println!("leader = {leader:?} at t={}", w.now_ms());
+        crate::outln!("leader = {leader:?} at t={}", w.now_ms());
         if let Some(l) = leader {
             for i in 0..5u8 {
                 let (tx, rx) = MaybeCloneOneshot::new();
@@ -35,17 +35,41 @@ pub fn run() -> i32 {
                 };
                 w.nodes[&l].cmd_tx.send(ClientCmd::Propose(req, tx)).await.unwrap();
                 let r = tokio::time::timeout(Duration::from_millis(1000), rx).await;
-                println!("write {i}: {:?} at t={}", r.map(|x| x.map(|y| y.map(|z| z.error))), w.now_ms());
+                crate::outln!("write {i}: {:?} at t={}", r.map(|x| x.map(|y| y.map(|z| z.error))), w.now_ms());
             }
         }
         tokio::time::sleep(Duration::from_millis(500)).await;
         for (id, n) in &w.nodes {
-            println!("node {id}: sm={:?} applied={}", n.sm.contents().len(), d_engine_core::StateMachine::last_applied(&*n.sm).index);
+            crate::outln!("node {id}: sm={:?} applied={}", n.sm.contents().len(), d_engine_core::StateMachine::last_applied(&*n.sm).index);
         }
-        println!("history events: {}", w.history.lock().unwrap().events.len());
+        crate::outln!("history events: {}", w.history.lock().unwrap().events.len());
         w.shutdown_all().await;
         crate::runner::rm_dir(&w.root);
     });
-    println!("wall {:?}", t0.elapsed());
+    crate::outln!("wall {:?}", t0.elapsed());
+    0
+}
+
+/// dverif simscenario <file.json> [--history]: run one scenario file and print a summary (debugging aid)
+pub fn run_file(path: &str, show_history: bool) -> i32 {
+    let s = std::fs::read_to_string(path).expect("read scenario");
+    let v: serde_json::Value = serde_json::from_str(&s).expect("json");
+    let sc: crate::sim::scenario::Scenario = serde_json::from_value(v.get("case").cloned().unwrap_or(v)).expect("scenario");
+    let res = crate::sim::scenario::run_scenario(&sc);
+    if show_history {
+        for (t, e) in &res.history {
+            crate::outln!("{t:>7} {e:?}");
+        }
+    }
+    crate::outln!("labels={:?} end_ms={} committed_max={} leaders={:?}", res.labels, res.end_ms, res.committed.max_index, crate::sim::monitors::leaders_by_term(&res));
+    if std::env::var("SHOW_OPS").is_ok() {
+        for o in &res.ops {
+            crate::outln!("op {:?}", o);
+        }
+    }
+    for n in &res.final_nodes {
+        crate::outln!("node {} inc={} log=[{}..{}] applied={} leader={} exit={:?} kv={:?}", n.id, n.incarnation, n.first, n.last, n.last_applied, n.is_leader, n.raft_exit, crate::sim::monitors::show(&n.kv));
+    }
+    crate::outln!("checkpoint_violations={:?}", res.checkpoint_violations);
     0
 }
